@@ -107,10 +107,10 @@ def _check(mi, outcome, val, built=None):
 def mutants(site: int, mut: int, rsel: int, tag: str, vsel: int,
             ksel: int) -> bool:
     """
-    pre: 0 <= site < 28 and 0 <= mut < 7 and 0 <= rsel < 90
+    pre: 0 <= site < 28 and 0 <= mut < 8 and 0 <= rsel < 90
     pre: 1 <= len(tag) <= 40 and tag != '!'
     pre: not tag.startswith('tag:yaml.org,2002:')
-    pre: 0 <= vsel < 17 and 0 <= ksel < 14
+    pre: 0 <= vsel < 20 and 0 <= ksel < 15
     post: __return__
     """
     r = explore(slice_no(0), site, mut, rsel, tag, vsel, ksel, LIM, _check)
@@ -120,10 +120,10 @@ def mutants(site: int, mut: int, rsel: int, tag: str, vsel: int,
 def mutants_reach(site: int, mut: int, rsel: int, tag: str, vsel: int,
                   ksel: int) -> bool:
     """
-    pre: 0 <= site < 28 and 0 <= mut < 7 and 0 <= rsel < 90
+    pre: 0 <= site < 28 and 0 <= mut < 8 and 0 <= rsel < 90
     pre: 1 <= len(tag) <= 40 and tag != '!'
     pre: not tag.startswith('tag:yaml.org,2002:')
-    pre: 0 <= vsel < 17 and 0 <= ksel < 14
+    pre: 0 <= vsel < 20 and 0 <= ksel < 15
     post: __return__
     """
     r = explore(slice_no(0), site, mut, rsel, tag, vsel, ksel, LIM, _check)
@@ -141,7 +141,7 @@ def doubles(m1: int, site: int, mut: int, rsel: int, tag: str, vsel: int,
     pre: 0 <= m1 < 6 and 0 <= site < 28 and 0 <= mut < 6 and 0 <= rsel < 90
     pre: 1 <= len(tag) <= 40 and tag != '!'
     pre: not tag.startswith('tag:yaml.org,2002:')
-    pre: 0 <= vsel < 17 and 0 <= ksel < 14
+    pre: 0 <= vsel < 20 and 0 <= ksel < 15
     post: __return__
     """
     r = pipeline.explore2(slice_no(0), m1, site, mut, rsel, tag, vsel, ksel,
